@@ -14,30 +14,7 @@ def budget(tier: str) -> dict:
 def generate(seed: int, tier: str, index: int) -> dict:
     spec = mc.generate_live(ID, seed, tier, index, richness=0.9, seg_cap=12, wakeups=(1, 3), select=["edges"],
                             forge_p=0.25)
-    # the statement covers both modes: every player also asks for static manifests of its stream (before, between
-    # and after its live sessions - the order matters for anything the server keeps between requests); the player
-    # fetches the initialization segments a static manifest spells out
-    from . import base, c06
-    from .. import optgen
-    rng = base.rng_for(seed, "gen-vod")
-    for a in spec["actors"]:
-        if not a["id"].startswith("obs"):
-            continue
-        first = next((s for s in a["script"] if s["op"] == "manifest"), None)
-        if first is None:
-            continue
-        stream = first["path"].split("/")[3]
-        for _ in range(rng.choice([1, 2, 2, 3])):
-            manifest = rng.choice([m for m, mode in c06.VOD_TEMPLATES if mode == "vod"])
-            q = c06.vod_vector(rng, manifest, "vod", encrypted_ok=(stream == "bbb"))
-            if stream == "bbb" and rng.random() < 0.5:
-                q["drm"] = optgen.gen_drm(rng)
-            pos = rng.choice([0, len(a["script"]), rng.randrange(0, len(a["script"]) + 1)])
-            # never split a manifest from the segments step that follows it
-            while 0 < pos < len(a["script"]) and a["script"][pos]["op"] == "segments":
-                pos += 1
-            a["script"][pos:pos] = [{"op": "manifest", "path": f"/dash/vod/{stream}/{manifest}", "q": q},
-                                    {"op": "segments", "select": "edges", "max": 12}]
+    mc.add_static_sessions(spec, seed, media=False)
     return spec
 
 
